@@ -145,7 +145,7 @@ def context_scripts(rng, n):
     return out
 
 
-def collision_scripts(rng, n, conflicting_returns=True):
+def collision_scripts(rng, n, conflicting_returns=True, shadow_helpers=True):
     """Families of scripts that share identifiers, helper names + parameter lists, literal texts and tune names but differ in
     what those mean: anything remembered from one transpilation (memo tables keyed by name/signature/text, shared tables
     mutated in place) or iterated in set order (mixed bool/int operand sets) shows as a different output for a later script."""
@@ -220,6 +220,14 @@ def collision_scripts(rng, n, conflicting_returns=True):
                   f'lcd.animate("{rng.choice(["scroll", "blink", "bounce", "typewriter"])}", 0, "{rng.choice(["hi", "Reduino rocks"])}", speed_ms={rng.choice([50, 200])}, loop={rng.choice(["True", "False"])})',
                   "while True:", "    sleep(10)"]
         out.append("\n".join(L) + "\n")
+    # a user function named like a helper the transpiler knows, then an unrelated script that uses the real helper
+    for nm, victim in (("max", "m = max(3, analog_read(0))"), ("min", "m = min(3, analog_read(0))"), ("abs", "m = abs(analog_read(0) - 5)"),
+                       ("len", "m = len(\"abc\" + str(analog_read(0)))"), ("int", "m = int(analog_read(0) / 2)"), ("round", "m = round(analog_read(0) / 3)"),
+                       ("float", "m = float(analog_read(0))"), ("str", "m = str(analog_read(0))")) if shadow_helpers else ():
+        out.append(HDR + f"def {nm}(a, b):\n    return a * 1.5\nr = {nm}(2, 3)\nmon.write(r)\n")
+        out.append(HDR + victim + "\nmon.write(m)\nk = m\nmon.write(k)\n")
+        out.append(HDR + f"def {nm}(a):\n    return \"s\" + a\nr = {nm}(\"x\")\nmon.write(r)\n")
+        out.append(HDR + victim + "\nmon.write(m)\n")
     # helpers whose return statements disagree on the type (rejected today: whatever happens instead must not depend on set order)
     for a, b in (("[1, 2, 3]", "[0.5, 1.5, 2.5]"), ("[1, 2]", '["a", "b"]'), ('"a"', "2.5"), ("True", "[1]")) if conflicting_returns else ():
         out.append(HDR + f"def pick(k):\n    if k > 0:\n        return {a}\n    elif k < 0:\n        return {b}\n    return {a}\nxs = pick(1)\nys = pick(-1)\n")
@@ -283,3 +291,58 @@ def mixed(seed_parts, n_prog=30, n_promo=20, n_dev=10):
     scripts += context_scripts(rng, max(8, n_dev))
     scripts += collision_scripts(rng, max(28, 3 * n_dev))
     return scripts
+
+
+HOUSEKEEPING_LINES = ["pass", "from Reduino.Core import pin_mode, OUTPUT", "from Reduino.Core import *", "from Reduino.Sensors import Potentiometer",
+                      "from Reduino.Sensors import Button, Ultrasonic", "from Reduino.Actuators import Led", "from Reduino.Actuators import *", "import Reduino",
+                      "import Reduino.Core", "from Reduino.Utils import sleep", "from Reduino.Utils import map as remap", "from Reduino import target",
+                      "from Reduino.Displays import LCD", "from Reduino.Communication import SerialMonitor", "target(\"COM3\")", "print(\"x\")",
+                      "\"\"\"doc\"\"\"", "'s'", "42", "# c", "...", "None", "import os", "from math import pi", "from . import x", "import"]
+HOUSEKEEPING_CTX = {
+    "top": "{A}\n{L}\n{B}\n", "if": "if analog_read(0) > 3:\n    {A}\n    {L}\n    {B}\n", "main-loop": "while True:\n    {A}\n    {L}\n    {B}\n",
+    "def": "def f():\n    {A}\n    {L}\n    {B}\n    return 1\nq = f()\n", "for": "for i in range(2):\n    {A}\n    {L}\n    {B}\n",
+    "try": "try:\n    {A}\n    {L}\n    {B}\nexcept:\n    {A}\n", "except": "try:\n    {A}\nexcept:\n    {L}\n    {B}\n",
+    "else": "if analog_read(0) > 3:\n    {A}\nelse:\n    {L}\n    {B}\n", "while": "w = 2\nwhile w > 0:\n    w -= 1\n    {L}\n    {B}\n",
+    "if-in-loop": "while True:\n    if analog_read(0) > 3:\n        {L}\n        {B}\n    {A}\n", "first-in-def": "def f():\n    {L}\n    {B}\n    return 1\nq = f()\n",
+    "last-in-loop": "while True:\n    {A}\n    {B}\n    {L}\n",
+}
+
+
+def housekeeping_scripts():
+    """(line, context, script): one do-nothing / import / directive line between two real statements, in every block context."""
+    base = HDR + "led = Led(13)\n"
+    return [(L, c, base + tpl.format(A="led.on()", L=L, B="led.off()")) for L in HOUSEKEEPING_LINES for c, tpl in HOUSEKEEPING_CTX.items()]
+
+
+ZERO_ARG_CALLS = [("d = Led(3)\n", ["d.on()", "d.off()", "d.toggle()", "mon.write(d.get_state())", "mon.write(d.get_brightness())"]),
+                  ("d = RGBLed(3, 5, 6)\n", ["d.on()", "d.off()", "mon.write(d.get_state())"]),
+                  ("d = Servo(3)\n", ["mon.write(d.read())", "mon.write(d.read_us())"]),
+                  ("d = DCMotor(3, 4, 5)\n", ["d.stop()", "d.coast()", "d.invert()", "mon.write(d.get_speed())", "mon.write(d.get_applied_speed())", "mon.write(d.is_inverted())", "mon.write(d.get_mode())"]),
+                  ("d = Buzzer(3)\n", ["d.stop()", "d.beep()", "d.play_tone(440)", "mon.write(d.get_state())"]),
+                  ("d = LCD(rs=12, en=11, d4=5, d5=4, d6=3, d7=2, backlight_pin=9)\n", ["d.clear()", "d.display(True)"]),
+                  ("d = Ultrasonic(7, 8)\n", ["mon.write(d.measure_distance())"]), ("d = Potentiometer(\"A1\")\n", ["mon.write(d.read())"]),
+                  ("d = Button(2)\n", ["mon.write(d.is_pressed())"])]
+TWICE_WRAPPERS = ["{a}\nsleep(5)\n{a}\n", "while True:\n    {a}\n    sleep(5)\n    {a}\n", "if analog_read(0) > 3:\n    {a}\n    {a}\nelse:\n    {a}\n",
+                  "def twice():\n    {a}\n    {a}\n    return 1\nq = twice()\n", "for k in range(2):\n    {a}\n    {a}\n"]
+
+
+def twice_scripts():
+    """Every device method called twice in ONE block (top level, main loop, branch, helper, for body): whatever temporaries
+    the expansion of one call declares must not clash with those of the next."""
+    from ..checks.C08 import specs
+
+    out = []
+    calls = []
+    for sp in specs():
+        if sp["call"].startswith("d = ") or not sp["prelude"] or "zz = " in sp["call"]:
+            continue
+        args = ", ".join(str(v) for v in sp["values"].values())   # positional, in signature order
+        calls.append((sp["prelude"], sp["call"].format(args=args)))
+    for prelude, cs in ZERO_ARG_CALLS:
+        calls += [(prelude, c) for c in cs]
+    for n, (prelude, call) in enumerate(calls):
+        for w in (TWICE_WRAPPERS[n % len(TWICE_WRAPPERS)], TWICE_WRAPPERS[(n + 1) % len(TWICE_WRAPPERS)]):
+            if "def twice" in w and ("animate" in call):
+                continue   # known finding animate-in-function
+            out.append(HDR + prelude + w.format(a=call))
+    return out
